@@ -1084,6 +1084,9 @@ Error RACFGBuilder::move_reg_to_stack_arg(InvokeNode* invoke_node, const FuncVal
           break;
         }
 
+        // Vector arguments passed by stack are aligned to their size - the stack must be aligned accordingly.
+        _func_node->frame().update_call_stack_alignment(TypeUtils::size_of(dst_type_id));
+
         return cc().emit(vec_mov_inst_id, stack_ptr, r0);
       }
       break;
